@@ -420,6 +420,9 @@ func parseModItems(s string, loop int) []*ModItem {
 		} else if strings.HasSuffix(it, "[*]") {
 			m.All = true
 			m.Expr = strings.TrimSuffix(it, "[*]")
+		} else if strings.HasPrefix(it, "gcChan(") {
+			m.All = true
+			m.Expr = strings.TrimSuffix(strings.TrimPrefix(it, "gcChan("), ")")
 		}
 		out = append(out, m)
 	}
@@ -678,6 +681,16 @@ func gcExists[T any](f func(T) bool) bool { var z T; return f(z) }
 func gcAllocated[T any](x T) bool { return true }
 func gcFresh[T any](x T) bool { return true }
 func gcSameRef[T any](a, b T) bool { return false }
+// channel ghost state: producer index, consumer index, element at a position, flags
+func gcTail[T any](ch chan T) int { return 0 }
+func gcHead[T any](ch chan T) int { return 0 }
+func gcAt[T any](ch chan T, pos int) T { var z T; return z }
+func gcClosed[T any](ch chan T) bool { return false }
+func gcAwaited[T any](ch chan T) bool { return false }
+func gcCap[T any](ch chan T) int { return cap(ch) }
+func gcChan[T any](ch chan T) any { return ch }
+func gcFst[A, B any](a A, b B) A { return a }
+func gcSnd[A, B any](a A, b B) B { return b }
 func gcSum[K comparable](m map[K]int64) int64 { var s int64; for _, v := range m { s += v }; return s }
 func gcCard[K comparable, V any](m map[K]V) int { return len(m) }
 func gcHas[K comparable, V any](m map[K]V, k K) bool { _, ok := m[k]; return ok }
